@@ -280,8 +280,13 @@ decreasing_by
   · exact Prod.Lex.left _ _ h1
   · rw [h1]; exact Prod.Lex.right _ h2
 
+/-- "A block left over from an earlier call belongs to the entry that was being read.  Once
+the handle has left the DATA state (skip, close, failure) the memory behind it may be gone":
+`if (a->state != ARCHIVE_STATE_DATA) __archive_reset_read_data(a);` -/
+def enterReadData (h : H) : H := if h.state ≠ .data then { h with rd := resetRD } else h
+
 /-- `archive_read_data(a, buff, s)`. -/
-def readData (h : H) (s : Nat) : Ret × H := readLoop h s []
+def readData (h : H) (s : Nat) : Ret × H := readLoop (enterReadData h) s []
 
 /-- The drain loop of `archive_read_data_skip`:
 `while ((r = archive_read_data_block(...)) == ARCHIVE_OK) ;` in state DATA. -/
